@@ -1192,7 +1192,8 @@ def normalise_ifexp(tree):
                     mk = lambda v, st=st: ast.copy_location(ast.Assign(targets=[_clone(st.targets[0])], value=v), st)
                 elif isinstance(st, ast.Return) and isinstance(st.value, ast.IfExp):
                     mk = lambda v, st=st: ast.copy_location(ast.Return(value=v), st)
-                elif isinstance(st, ast.Expr) and isinstance(st.value, ast.Call) and pure(st.value.func) and not any(k.arg is None for k in st.value.keywords) \
+                elif (isinstance(st, (ast.Expr, ast.Return)) or (isinstance(st, ast.Assign) and len(st.targets) == 1 and isinstance(st.targets[0], ast.Name))) \
+                        and isinstance(st.value, ast.Call) and pure(st.value.func) and not any(k.arg is None for k in st.value.keywords) \
                         and sum(1 for a_ in st.value.args if isinstance(a_, ast.IfExp)) == 1:
                     # f(.., A if C else B, ..) with a side-effect free callee and earlier arguments: the call is made once, with A or with B
                     call_ = st.value
@@ -1204,6 +1205,10 @@ def normalise_ifexp(tree):
                     def mk(v, st=st, call_=call_, k_=k_):
                         c2 = _clone(call_)
                         c2.args[k_] = v
+                        if isinstance(st, ast.Return):
+                            return ast.copy_location(ast.Return(value=c2), st)
+                        if isinstance(st, ast.Assign):
+                            return ast.copy_location(ast.Assign(targets=[_clone(st.targets[0])], value=c2), st)
                         return ast.copy_location(ast.Expr(value=c2), st)
                     new = ast.copy_location(ast.If(test=ie.test, body=[mk(ie.body)], orelse=[mk(ie.orelse)]), st)
                     ast.fix_missing_locations(new)
